@@ -287,6 +287,47 @@ impl C18Check {
                 compare(name, &key, &base_text, &base, &var_text, var, ctx);
             }
         }
+        // 1a. two layout rewrites at once: a line break in one gap and trailing blanks before a line break in a later gap
+        // (what the lexer remembers from the first must not change how it reads the second), on programs of up to 14 tokens
+        if toks.len() <= 14 {
+            let plain_gap = |at: usize| {
+                let p = matches!(&toks[at - 1], Tok::Op(o) if o.text == " " || o.text == "\n\n");
+                let t = matches!(&toks[at], Tok::Op(o) if o.text == " " || o.text == "\n\n");
+                !p && !t
+            };
+            for first in 1..toks.len() {
+                for second in first + 1..toks.len() {
+                    if !plain_gap(first) || !plain_gap(second) || !take(60) {
+                        continue;
+                    }
+                    for (name, d1, d2) in [("line-break-then-trailing-blanks", "\n", " \n"), ("line-break-then-trailing-tab", "\n", "\t\n"), ("trailing-blanks-then-line-break", "  \n", "\n")] {
+                        let mut var_text = String::new();
+                        for (i, t) in toks.iter().enumerate() {
+                            let is_ws_op = matches!(t, Tok::Op(o) if o.text == " " || o.text == "\n\n");
+                            if i > 0 {
+                                let prev_ws = matches!(&toks[i - 1], Tok::Op(o) if o.text == " " || o.text == "\n\n");
+                                if i == first {
+                                    var_text.push_str(d1);
+                                } else if i == second {
+                                    var_text.push_str(d2);
+                                } else if !is_ws_op && !prev_ws {
+                                    var_text.push(' ');
+                                }
+                            }
+                            var_text.push_str(&t.text());
+                        }
+                        ctx.sub_evals += 1;
+                        let var = observe(&var_text, Some(&toks), input_ids);
+                        if matches!(var, Err("layout-merge")) {
+                            // line breaks and blanks between tokens that a blank already separated: the token rules keep every token
+                            ctx.fail(format!("layout:{}:tokens-differ", name), format!("{:?} is accepted, in its rewrite {:?} the lexer no longer returns the same significant tokens", base_text, var_text));
+                            continue;
+                        }
+                        compare(name, "two-gaps", &base_text, &base, &var_text, var, ctx);
+                    }
+                }
+            }
+        }
         // 1b. blanks and tabs on the blank line itself
         for at in 0..toks.len() {
             if !matches!(&toks[at], Tok::Op(o) if o.text == "\n\n") {
@@ -332,7 +373,17 @@ impl C18Check {
         let mut positions = vec![];
         collect_positions(ast, &mut vec![], &mut positions);
         for path in positions {
-            for kind in ["parenthesise-operand", "add-constant-side-effect", "add-side-effect-before", "add-side-effect-holding-a-block", "add-side-effect-before-holding-a-block", "add-side-effect-holding-a-list"] {
+            for kind in [
+                "parenthesise-operand",
+                "add-constant-side-effect",
+                "add-side-effect-before",
+                "add-side-effect-holding-a-block",
+                "add-side-effect-before-holding-a-block",
+                "add-side-effect-holding-a-list",
+                "add-side-effect-holding-a-grouped-product",
+                "add-side-effect-holding-a-negated-product",
+                "add-side-effect-before-holding-a-grouped-product",
+            ] {
                 if !take(50) {
                     continue;
                 }
@@ -411,7 +462,14 @@ fn rewrite_at(n: &Sx, path: &[u8], kind: &str) -> Option<Sx> {
                     let one = Sx::leaf("Number", "1");
                     let nested = Sx::ValNode("Number".into(), "2".into(), None, Some(block(Sx::leaf("Number", "3"))));
                     let list = Sx::node("List", Some(Sx::leaf("Number", "8")), Some(Sx::leaf("Number", "9")));
+                    // bodies that start with a group or a prefix operator and go on with a binary operator
+                    let product = |first: Sx| Sx::node("MultiplicationSign", Some(first), Some(Sx::leaf("Number", "4")));
+                    let grouped = product(Sx::node("Group", None, Some(Sx::leaf("Number", "3"))));
+                    let negated = product(Sx::node("Opposite", None, Some(Sx::leaf("Number", "3"))));
                     Some(match kind {
+                        "add-side-effect-holding-a-grouped-product" => Sx::ValNode(d.clone(), t.clone(), None, Some(block(grouped))),
+                        "add-side-effect-holding-a-negated-product" => Sx::ValNode(d.clone(), t.clone(), None, Some(block(negated))),
+                        "add-side-effect-before-holding-a-grouped-product" => Sx::ValNode(d.clone(), t.clone(), Some(block(grouped)), None),
                         "add-constant-side-effect" => Sx::ValNode(d.clone(), t.clone(), None, Some(block(one))),
                         "add-side-effect-before" => Sx::ValNode(d.clone(), t.clone(), Some(block(one)), None),
                         "add-side-effect-holding-a-block" => Sx::ValNode(d.clone(), t.clone(), None, Some(block(nested))),
@@ -464,7 +522,7 @@ impl Check for C18Check {
     }
     fn rule(&self) -> String {
         "Programs: every core-language AST with at most k nodes (k=3 quick, 4 thorough; the C01 enumerator) printed with single spaces, plus random larger ASTs. For each accepted program every single rewrite is applied at every position (random programs: a tape-chosen subset of positions): \
-         each gap between two tokens is replaced by no space / one space / several spaces / a tab / a line break / an annotation (spaced, or glued to either neighbour) / a comment line (inside a list-space or blank-line gap: widening with blanks and tabs, an annotation before the operator's white space, after it, or after it and glued to the next token); each blank line additionally rewritten to hold a space, a tab, or tabs and spaces; trailing or leading white space, annotation or comment line; parentheses around one complete operand; a side-effect block without an observable effect after or before one value (body: a constant, a constant with a block of its own, a list). \
+         each gap between two tokens is replaced by no space / one space / several spaces / a tab / a line break / an annotation (spaced, or glued to either neighbour) / a comment line (inside a list-space or blank-line gap: widening with blanks and tabs, an annotation before the operator's white space, after it, or after it and glued to the next token); two gaps at once (a line break in one, trailing blanks or a tab before a line break in a later one, and the other way round); each blank line additionally rewritten to hold a space, a tab, or tabs and spaces; trailing or leading white space, annotation or comment line; parentheses around one complete operand; a side-effect block without an observable effect after or before one value (body: a constant, a constant with a block of its own, a list, a product whose first factor is grouped or negated). \
          A rewrite is applicable only if the lexer still produces the same significant tokens (otherwise counted, not judged) and is meaning-preserving by construction (not applied to a property name after `.`, to a same-kind list item, to an arm of an else chain, or around separators). \
          Oracle (metamorphic): the parse tree modulo Group nodes and side-effect blocks is unchanged and the final value on both data implementations and two inputs is unchanged. \
          Non-trivial = a gap rewrite between tokens of different classes; distinct = distinct (program, position, rewrite)."
